@@ -11,6 +11,7 @@ import (
 	restful "github.com/emicklei/go-restful/v3"
 
 	"verifharness/internal/report"
+	"verifharness/internal/rng"
 )
 
 // Proj selects the part of a canonical result a property constrains.
@@ -39,6 +40,16 @@ func ProjPanic(r *Result, blank bool) string {
 		esc = *r.Escaped
 	}
 	return fmt.Sprintf("esc=%q status=%d complete=%v acq=%d rel=%d", esc, r.Status, r.Complete, r.Acq, r.Rel)
+}
+
+// ProjCodingNoLedger is ProjCoding without the ledger delta (under concurrency it cannot be attributed
+// to one request): the label, whether the coded body decodes completely, and what it decodes to.
+func ProjCodingNoLedger(r *Result, blank bool) string {
+	body := r.Body
+	if !r.Complete || blank {
+		body = ""
+	}
+	return fmt.Sprintf("ce=%q complete=%v body=%x", r.CE, r.Complete, body)
 }
 
 // ProjAllButLedger is the whole canonical result without the ledger deltas (under concurrency they
@@ -78,12 +89,15 @@ func Human(h *History, i int) map[string]interface{} {
 	r := h.Reqs[i]
 	return map[string]interface{}{"container": map[string]interface{}{"encoding": h.Cfg.Enc, "recover": h.Cfg.Recover, "customRecoverHandler": h.Cfg.HasRS,
 		"recoverScript": actStrs(h.Cfg.RScript), "containerFilters": fl(h.Cfg.CF), "serviceFilters": svcf, "routes": routes, "plainHandler": actStrs(h.Cfg.Plain), "provider": h.Cfg.Provider,
-		"late": h.Cfg.Late, "routeSelector": map[bool]string{false: "built-in", true: "a wrapper around the built-in router that answers " + RouterErrPath + " with errors.New(…) (not a restful.ServiceError)"}[h.Cfg.RouterErr], "serviceFilterRegistration": []string{"every ws.Filter before the first ws.Route", "ws.Filter after the last ws.Route, before Container.Add", "ws.Filter after Container.Add",
+		"late": h.Cfg.Late, "routeBuilders": map[bool]string{false: "one RouteBuilder per route", true: fmt.Sprintf("RouteBuilder values used again for the next route of the WebService where its filters and conditions extend the previous route's (Method, Path, … To said anew), the last route of a WebService removed (RemoveRoute) and registered again from its builder; decisions drawn from seed %d", h.Cfg.Reuse)}[h.Cfg.Reuse != 0],
+		"containerChurn": fmt.Sprintf("bits %03b: 1 = a throw-away WebService added and removed after the table's WebServices, 2 = the WebService added last removed and added again, 4 = a throw-away WebService added and removed before the first Add (all before Handle / HandleWithFilter)", h.Cfg.Churn),
+		"routeSelector": map[bool]string{false: "built-in", true: "a wrapper around the built-in router that answers " + RouterErrPath + " with errors.New(…) (not a restful.ServiceError)"}[h.Cfg.RouterErr], "serviceFilterRegistration": []string{"every ws.Filter before the first ws.Route", "ws.Filter after the last ws.Route, before Container.Add", "ws.Filter after Container.Add",
 			"first ws.Filter before the routes, the others one after each ws.Route, the rest after Container.Add"}[h.Cfg.Order]},
 		"table": h.Cfg.Routing.Sx().String(), "position_in_history": i, "history_length": len(h.Reqs),
 		"request": map[string]interface{}{"entry": r.Entry, "method": r.Req.Method, "path": r.Req.Path, "accept_encoding": r.AE, "prior_content_encoding": r.Prior,
 			"accept": r.Req.Accept, "content_type": r.Req.CT, "if_bits": r.Req.Conds, "if_condition_panics_with": r.CondPanic,
-			"route_selector_refuses_with_plain_error": r.RouterErr}}
+			"route_selector_refuses_with_plain_error": r.RouterErr,
+			"entity": r.BodyDoc, "content_encoding_of_the_entity": r.BodyEnc}}
 }
 
 func actStrs(as []Act) []string {
@@ -96,6 +110,12 @@ func actStrs(as []Act) []string {
 			out = append(out, fmt.Sprintf("io.WriteString(raw writer, %d bytes)", len(a.B)))
 		case "hj":
 			out = append(out, "Hijack()")
+		case "re":
+			if a.B == "" {
+				out = append(out, "req.ReadEntity(&entity)")
+			} else {
+				out = append(out, fmt.Sprintf("req.ReadEntity(&entity whose UnmarshalJSON panics with %s)", a.B))
+			}
 		case "we":
 			out = append(out, fmt.Sprintf("WriteErrorString(%d,%s)", a.N, a.B))
 		case "pp":
@@ -297,6 +317,7 @@ func Check(run *report.Run, p PropSpec, o GenOpts, n, maxLen int, stream string)
 		}
 	}
 	run.Extra["skipped_tables_F11"] = SkippedBuild
+	run.Extra["registration_histories"] = map[string]int{"routes_declared_with_a_RouteBuilder_that_had_built_a_route": BuildersReused, "routes_removed_and_registered_again": RoutesReadded, "webservices_added_and_removed_again": Churned}
 	return nil
 }
 
@@ -553,15 +574,34 @@ func gatedCount(h *History, k int) int {
 // CheckConcurrent: every request of a history is served 3× concurrently on one container, with a
 // rendezvous at the first container filter; each answer's projection must equal the sequential one.
 func CheckConcurrent(run *report.Run, p PropSpec, o GenOpts, n, maxLen int) error {
+	return checkConcurrent(run, p, o, n, maxLen, false)
+}
+
+// CheckConcurrentAfterFaults is CheckConcurrent on a container (and compressor provider) that has
+// served fault traffic before: every request of the history once to a client whose connection breaks
+// after a few body bytes (how many is drawn per request), so that what the framework writes when it
+// finishes the response — the rest of the coded stream, its trailer — fails. The answers to the fault
+// traffic are not looked at; the answers of the overlapping requests that follow must be the
+// sequential ones, and the provider's books must be in order.
+func CheckConcurrentAfterFaults(run *report.Run, p PropSpec, o GenOpts, n, maxLen int) error {
+	return checkConcurrent(run, p, o, n, maxLen, true)
+}
+
+func checkConcurrent(run *report.Run, p PropSpec, o GenOpts, n, maxLen int, faults bool) error {
 	SmallPayloads = true
 	o.Overlap = true
-	hs, err := Run(run.Seed*7368787+3, n, o, maxLen)
+	seed := run.Seed*7368787 + 3
+	if faults {
+		seed += 2
+	}
+	hs, err := Run(seed, n, o, maxLen)
 	SmallPayloads = false
 	if err != nil {
 		return err
 	}
 	bad := 0
-	for _, h := range hs {
+	fr := rng.New(seed ^ 0x5bd1e995)
+	for hi, h := range hs {
 		if h.Cfg.Recover && h.Cfg.HasRS {
 			continue // the custom recover handler gets no request and could not be attributed
 		}
@@ -570,6 +610,13 @@ func CheckConcurrent(run *report.Run, p PropSpec, o GenOpts, n, maxLen int) erro
 			return err
 		}
 		led := Install(h.Cfg.Provider)
+		if faults {
+			r := fr.Fork(uint64(hi))
+			for _, rq := range h.Reqs {
+				ServeFailing(cont, h.Cfg, rq, led, r.Intn(48))
+				run.Count("fault-traffic:broken-connection")
+			}
+		}
 		res := make([]*Result, len(h.Reqs)*3)
 		var wg sync.WaitGroup
 		gate := NewGate(gatedCount(h, len(res)))
@@ -592,6 +639,13 @@ func CheckConcurrent(run *report.Run, p PropSpec, o GenOpts, n, maxLen int) erro
 				run.AddViolation(report.Violation{Kind: "counterexample", What: p.ID + ": a request served concurrently with others (all held at the first container filter, then released) is answered differently from the same request served alone",
 					Case: []string{h.Line}, Human: Human(h, i), Real: a, Model: b})
 			}
+		}
+		if _, _, dbl := led.Snapshot(); faults && (dbl != 0 || led.Outstanding() != 0) && bad < 3 {
+			bad++
+			hm := Human(h, 0)
+			hm["before"] = "every request of the history served once to a client whose connection breaks after a few body bytes, then all of them 3x concurrently"
+			run.AddViolation(report.Violation{Kind: "counterexample", What: p.ID + ": after requests whose client connection broke and a batch of overlapping requests the compressor provider's books are not in order (an object released twice, handed out while in use, or never returned): responses that are in flight at the same moment can share a compressor",
+				Case: []string{h.Line}, Human: hm, Real: fmt.Sprintf("anomalies=%d outstanding=%d", dbl, led.Outstanding()), Model: "anomalies=0 outstanding=0"})
 		}
 	}
 	return nil
